@@ -115,5 +115,8 @@ def run(ctx):
             if r.ret is not None and isinstance(r.ret, tm.T):
                 fired = any(r.atoms[a].off == 12 for a in r.ret.deps if a in r.atoms)
         ctx.control('Vec4::min_element depends on its fourth lane (%s)' % cfg, fired, 'dependency tracking through the reduction kernel')
+    if ctx.tier == 'thorough':
+        from runner import run_witness
+        run_witness(ctx, ['C08'])
     ctx.extra['exhaustive'] = True
     ctx.extra['rule_text'] = 'instances = every reachable non-generic fn/trait-impl fn whose arguments contain a SIMD-backed Vec3A/BVec3A sub-object (enumerated from rustc facts); an instance HOLDS when no observable depends on a hidden-lane atom'
